@@ -81,10 +81,10 @@ class Pseudo2NetCDF:
             value = getattr(pfile, k)
             if not isinstance(value, MethodType):
                 try:
-                    setattr(nfile, k, value)
+                    nfile.setncattr(k, value)
                 except TypeError as e:
                     if isinstance(value, bool):
-                        setattr(nfile, k, np.int8(value))
+                        nfile.setncattr(k, np.int8(value))
                     else:
                         raise e
                 except Exception as e:
